@@ -2,6 +2,7 @@
 import NB.Wire
 import NB.Model.Mul
 import NB.Model.AsmParams
+import NB.Model.Scalar
 import NB.Model.ScalarD
 namespace NB.Drv.C02
 open NB NB.Mul NB.Wire
@@ -19,6 +20,41 @@ def padTo (len : Nat) (n : Nat) : List Nat :=
 def showSome {α} (f : α → String) : Except Panic α → String
   | .ok r => "some " ++ f r
   | .error p => "panic " ++ p.toString
+
+/-! #### api-coverage: scalar multiplication forms (`<type>:<decimal>` tokens), modelled by the digit-level leaves
+     of NB.Model.ScalarD (promotion cast, then `MulAssign<u32|u64|u128>` / the BigInt sign handling as written) -/
+
+def styOfName (s : String) : Option STy :=
+  if s == "u8" then some .u8 else if s == "u16" then some .u16 else if s == "u32" then some .u32
+  else if s == "u64" then some .u64 else if s == "u128" then some .u128 else if s == "usize" then some .usize
+  else if s == "i8" then some .i8 else if s == "i16" then some .i16 else if s == "i32" then some .i32
+  else if s == "i64" then some .i64 else if s == "i128" then some .i128 else if s == "isize" then some .isize
+  else none
+
+def parseScalarTok (s : String) : Option (STy × Int) :=
+  match s.splitOn ":" with
+  | [t, v] => do
+    let ty ← styOfName t
+    let x ← parseInt v
+    if ty.InRange x then pure (ty, x) else none
+  | _ => none
+
+def scalarHandle (op : String) (args : List String) : Option (String × String) :=
+  match args with
+  | [p, q] => do
+    let name := (op.drop 2).toString
+    let (pos, a, tv) ← (if name == "mul_s" then some (SPos.bigScalar, p, q)
+                        else if name == "s_mul" then some (SPos.scalarBig, q, p)
+                        else if name == "mul_assign_s" then some (SPos.assign, p, q) else none)
+    let (t, s) ← parseScalarTok tv
+    if op.startsWith "u." then do
+      let a ← parseLimbs a
+      if t.signed then none else
+      pure (su (SD.uScalarForm P .mul pos t a s), su (.ok (ofNat (val a * s.toNat))))
+    else do
+      let a ← parseBigInt a
+      pure (si (SD.iScalarForm P .mul pos t a s), si (.ok (BigInt.ofInt (a.val * s))))
+  | _ => none
 
 def handle (op : String) (args : List String) : Option (String × String) :=
   match op, args with
@@ -48,6 +84,13 @@ def handle (op : String) (args : List String) : Option (String × String) :=
   | "i.checked_mul", [a, b] => do
     let a ← parseBigInt a; let b ← parseBigInt b
     pure (showSome showBigInt (bigintMul P a b), "some " ++ showBigInt (BigInt.ofInt (a.val * b.val)))
+  -- api-coverage: trait impl `CheckedMul for BigInt` = `Some(&self * v)`
+  | "i.checked_mul_t", [a, b] => do
+    let a ← parseBigInt a; let b ← parseBigInt b
+    pure (showSome showBigInt (bigintMul P a b), "some " ++ showBigInt (BigInt.ofInt (a.val * b.val)))
+  -- api-coverage: scalar multiplication forms
+  | "u.mul_s", [p, q] | "u.s_mul", [p, q] | "u.mul_assign_s", [p, q]
+  | "i.mul_s", [p, q] | "i.s_mul", [p, q] | "i.mul_assign_s", [p, q] => scalarHandle op [p, q]
   -- internal hooks: raw slices
   | "raw.mac3", [acc, b, c] => do
     let acc ← parseLimbs acc; let b ← parseLimbs b; let c ← parseLimbs c
